@@ -82,7 +82,11 @@ class Prop:
                         'axiom list DESIGN 2.6 (instances only)']
         self.xcheck = dict(points=0, worst_rel=0.0, paths_covered=0, paths_total=0)
         self.notes = []
-        os.makedirs(os.path.join(VERIF, 'replays', pid), exist_ok=True)
+        rd = os.path.join(VERIF, 'replays', pid)
+        os.makedirs(rd, exist_ok=True)
+        for f in os.listdir(rd):            # replay files belong to the run that wrote them
+            if f.endswith('.json'):
+                os.unlink(os.path.join(rd, f))
         os.makedirs(os.path.join(VERIF, 'evidence'), exist_ok=True)
         self.verbose = os.environ.get('VERIF_VERBOSE', '1') != '0'
 
